@@ -120,6 +120,8 @@ CTX_TEMPLATES = [
     ('FocusedSeq("x", "x"/Bytes(this._.n), Const(b"!"))', dict(n=2), b'ab'),
     ('Prefixed(Byte, Bytes(this.n))', dict(n=2), b'ab'),
     ('Struct("a"/Byte, "b"/Bytes(this.a))', dict(), dict(a=2, b=b'xy')),
+    ('FixedSized(this.n, Struct("a"/Byte, "far"/Pointer(4, Int16ub)))', dict(n=6), dict(a=1, far=2)),
+    ('Prefixed(Byte, Bytes(this.n), includelength=True)', dict(n=2), b'ab'),
     ('Pointer(this.n, Byte)', dict(n=1), 5),
     ('Rebuild(Byte, this.n)', dict(n=1), None),
     ('Default(Int16ub, this.n)', dict(n=1), None),
@@ -183,6 +185,11 @@ FIXED = [
     ('Peek(Byte)', None), ('RawCopy(Int16ub)', dict(value=5)), ('Hex(Int32ub)', 5), ('Enum(Byte, a=1)', 'a'),
     ('ProcessXor(5, Int16ub)', 9), ('ProcessRotateLeft(3, 2, Int16ub)', 9), ('Transformed(Bytes(2), swapbytes, 2, swapbytes, 2)', b'ab'),
     ('NullTerminated(Byte)', 1), ('NullStripped(GreedyBytes)', b'a'), ('OffsettedEnd(-1, GreedyBytes)', b'a'),
+    ('FixedSized(8, Struct("a"/Byte, "far"/Pointer(4, Int16ub)))', dict(a=1, far=2)), ('Padded(8, Struct("a"/Byte, "far"/Pointer(4, Int16ub)))', dict(a=1, far=2)),
+    ('Prefixed(Byte, Struct("a"/Byte, "far"/Pointer(4, Int16ub)))', dict(a=1, far=2)), ('FixedSized(6, Sequence(Byte, Pointer(3, Byte), Byte))', [1, 2, 3]),
+    ('Struct("f"/FixedSized(8, Struct("a"/Byte, "far"/Pointer(5, Int16ub))), "t"/Byte)', dict(f=dict(a=1, far=2), t=3)),
+    ('Aligned(4, Struct("a"/Byte, "far"/Pointer(5, Int16ub)))', dict(a=1, far=2)), ('Prefixed(Byte, Bytes(3), includelength=True)', b'abc'),
+    ('Prefixed(Int16ub, Struct("a"/Byte, "b"/Int16ub), includelength=True)', dict(a=1, b=2)), ('Prefixed(VarInt, Bytes(3), includelength=True)', b'abc'),
     ('StopIf(True)', None), ('Seek(0)', None), ('Index', None), ('Array(3, Struct("a"/Byte, "b"/If(this.a, Byte)))', C.NOVAL),
 ]
 
